@@ -4,7 +4,8 @@
     length e/2).  [ugrafts tip t] lists the results for every branch of [t] in Edges() order,
     exactly as [TreeGen.grafts] does for AllTopologies (there with NIL lengths).  No proofs. *)
 From Coq Require Import String ZArith QArith Bool Arith List.
-From GT Require Import Base.UTree Model.Reroot Model.Prune Model.Collapse Model.TreeGen Model.NNI Model.Heap Model.HeapEdit.
+From GT Require Import Base.UTree Model.Reroot Model.Prune Model.Collapse Model.TreeGen Model.NNI Model.Heap Model.HeapEdit Model.HeapEdit2.
+From GT Require Model.LocalEdit.
 Import ListNotations.
 Local Close Scope Q_scope.
 
@@ -54,7 +55,9 @@ Inductive hop : Type :=
 | HRemoveEdge (rr rt : bool) (k : nat)      (* RemoveEdges(rr, rt, Edges()[k]) *)
 | HNniApply (r : nni)                       (* newNNI(t, n1, n2, cross).Apply() for the positional proposal r *)
 | HRemoveTip (nm : string)                  (* removeTip(the first tip of Tips() named nm) *)
-| HRotate (cs : list nat).                  (* Tree.RotateInternalNodes() with the random choices cs *)
+| HRotate (cs : list nat)                   (* Tree.RotateInternalNodes() with the random choices cs *)
+| HSort                                     (* Tree.SortNeighborsByTips() *)
+| HRmSingle.                                (* Tree.RemoveSingleNodes() *)
 
 Local Open Scope string_scope.
 Definition err_no_node : string := "The node is not part of the tree".
@@ -121,6 +124,8 @@ Definition run_hop_tree (o : hop) (t : utree) : res utree :=
   | HNniApply r => match NNI.apply r t with Some t' => Ok t' | None => Err err_nni_heap end
   | HRemoveTip nm => Prune.remove_tip nm t
   | HRotate cs => Ok (fst (rotate_all t cs))
+  | HSort => Ok (sort_by_tips t)
+  | HRmSingle => Ok (LocalEdit.remove_single t)
   end.
 
 Fixpoint run_tree (ops : list hop) (t : utree) : res utree :=
@@ -160,6 +165,8 @@ Definition run_hop_heap (o : hop) (h : heap) : hres heap :=
     | None => HPanic
     end
   | HRotate cs => rotate_internal_nodes_heap cs h
+  | HSort => sort_neighbors_by_tips_heap h
+  | HRmSingle => remove_single_nodes_heap h
   end.
 
 Fixpoint run_heap (ops : list hop) (h : heap) : hres heap :=
